@@ -67,8 +67,24 @@ func fontDiff(a, b *sfnt.Font, tol float64) string {
 			return cmp.Diff(a, b, opts...)
 		}
 	}
+	// matrix entries are small numbers: nine significant digits, whatever the tolerance for coordinates is
+	relDiff := func(x, y float64) bool { return math.Abs(x-y) > 1e-8*math.Max(math.Abs(x), math.Abs(y))+1e-15 }
+	for i := range a.FontMatrix {
+		if relDiff(a.FontMatrix[i], b.FontMatrix[i]) {
+			return fmt.Sprintf("FontMatrix: %v vs %v", a.FontMatrix, b.FontMatrix)
+		}
+	}
 	oa, oka := a.Outlines.(*cff.Outlines)
 	ob, okb := b.Outlines.(*cff.Outlines)
+	if oka && okb && len(oa.FontMatrices) == len(ob.FontMatrices) {
+		for k := range oa.FontMatrices {
+			for i := range oa.FontMatrices[k] {
+				if relDiff(oa.FontMatrices[k][i], ob.FontMatrices[k][i]) {
+					return fmt.Sprintf("FontMatrices[%d]: %v vs %v", k, oa.FontMatrices[k], ob.FontMatrices[k])
+				}
+			}
+		}
+	}
 	if oka && okb {
 		for gid := range oa.Glyphs {
 			if oa.FDSelect(glyph.ID(gid)) != ob.FDSelect(glyph.ID(gid)) {
